@@ -131,7 +131,7 @@ fn main() {
             let mut runner = Runner::new();
             runner.write_lib("libapp.so", &older);
             let init = Op::Init { version: "1.0.0".into(), dirs: 0, libs: vec!["libapp.so".into()],
-                yaml: Ok(Yaml { app_id: "codec".into(), channel: None, base_url: None, auto_update: None, key: None }) };
+                yaml: Ok(Yaml { app_id: "codec".into(), channel: None, base_url: None, auto_update: None, key: None }), count: None };
             runner.exec(&init);
             let upd = Op::Update { chan: None, resp: Some(Resp { available: true, patch: Some(Offer { number: 1, hash: sha256_hex(&newer), url: "u".into(), sig: None }), rolled_back: None }), dl: Some(patch_file), evf: 0 };
             let ret = runner.exec(&upd);
